@@ -1,6 +1,6 @@
 (* Proofs/Sb31Proofs.v -- lemmas about Model/Sb31Model.v (C05). *)
 From Coq Require Import ZArith NArith List Bool Lia.
-Require Import Value Bytes BytesProofs Sha2 Aes Modes Cmac CryptoProofs Sb31Model.
+Require Import Value Bytes BytesProofs Sha2 Aes Modes Cmac CryptoProofs Sb31Model GenSb31.
 Import ListNotations.
 Local Open Scope N_scope.
 Ltac Zify.zify_post_hook ::= Z.to_euclidean_division_equations.
@@ -409,17 +409,7 @@ Proof. apply le_enc_wf. Qed.
 Lemma wf_be_enc w v : wf_bytes (be_enc w v).
 Proof. apply be_enc_wf. Qed.
 
-Section Generic.
-Variable Hf : list N -> list N.
-Variable hl : nat.
-Variable k256 : bool.
-Variable E D : list N -> blk -> blk.
-Variable Mac : list N -> list N -> list N.
-Hypothesis H_len : forall m, length (Hf m) = hl.
-Hypothesis C_law : forall k b, key_ok k -> okb b -> D k (E k b) = b /\ okb (E k b).
-Hypothesis M_law : forall k m, key_ok k -> wf_bytes m -> okb (Mac k m).
-
-Lemma kdf_spec_lemma key const rights mode : rights < 4 ->
+Lemma kdf_spec_lemma (k256 : bool) (Mac : list N -> list N -> list N) key const rights mode : rights < 4 ->
   sb_derive k256 Mac key const rights mode =
   kdf_counter_mode Mac key (le_enc 12 const) (kdf_context k256 rights mode) (key_bits k256).
 Proof.
@@ -432,6 +422,22 @@ Proof.
      | change (N.to_nat (128 / 128)) with 1%nat | change (N.to_nat (128 / 128)) with 1%nat];
     cbn [n_range map concat app]; rewrite ?app_nil_r; reflexivity.
 Qed.
+
+Lemma descr16_length s : length (descr16 s) = 16%nat.
+Proof. unfold descr16. rewrite app_length, zeros_length, firstn_length. lia. Qed.
+
+Lemma sb_header_length hl x bc tl : length (sb_header hl x bc tl) = 60%nat.
+Proof. unfold sb_header. rewrite !app_length, !le_enc_length, descr16_length. reflexivity. Qed.
+
+Section Generic.
+Variable Hf : list N -> list N.
+Variable hl : nat.
+Variable k256 : bool.
+Variable E D : list N -> blk -> blk.
+Variable Mac : list N -> list N -> list N.
+Hypothesis H_len : forall m, length (Hf m) = hl.
+Hypothesis C_law : forall k b, key_ok k -> okb b -> D k (E k b) = b /\ okb (E k b).
+Hypothesis M_law : forall k m, key_ok k -> wf_bytes m -> okb (Mac k m).
 
 Lemma wf_kdf_data const rights mode i : rights < 4 -> wf_bytes (kdf_data k256 const rights mode i).
 Proof.
@@ -473,7 +479,7 @@ Proof.
                 (zeros hl, [])) as FR.
   rewrite rev_involutive in FR. cbv beta in FR.
   change (fun x y => f x y) with f in FR. rewrite <- FR. clear FR.
-  generalize 1 as n. induction chunks as [|c t IH]; intros n; [reflexivity|].
+  generalize 1%N as n. induction chunks as [|c t IH]; intros n; [reflexivity|].
   cbn [length n_range combine fold_right chain]. rewrite IH. reflexivity.
 Qed.
 
@@ -485,35 +491,54 @@ Definition chunk_ok (c : list N) : Prop := length c = 256%nat /\ wf_bytes c.
 Lemma okb_zeros16 : okb (zeros 16).
 Proof. split; [reflexivity | apply wf_zeros]. Qed.
 
+Definition blk_body (enc : bool) (key chunk : list N) : list N :=
+  if enc then cbc_enc (E key) (zeros 16) (sb_align 16 chunk) else chunk.
+Definition blk_plain (enc : bool) (key body : list N) : list N :=
+  if enc then cbc_dec (D key) (zeros 16) body else body.
+
 Lemma process_block_body enc key chunk : key_ok key -> chunk_ok chunk ->
-  let body := if enc then cbc_enc (E key) (zeros 16) (sb_align 16 chunk) else chunk in
-  length body = 256%nat /\ (if enc then cbc_dec (D key) (zeros 16) body else body) = chunk.
+  length (blk_body enc key chunk) = 256%nat /\ blk_plain enc key (blk_body enc key chunk) = chunk.
 Proof.
-  intros Hk [Hl Hw]. cbv zeta.
+  intros Hk [Hl Hw]. unfold blk_body, blk_plain.
   assert (M16 : Nat.modulo (length chunk) 16 = 0%nat) by (rewrite Hl; reflexivity).
   destruct enc; [|auto].
   rewrite sb_align_noop by (auto; lia).
   assert (DE : forall b, okb b -> D key (E key b) = b) by (intros b Hb; apply C_law; assumption).
   assert (EO : forall b, okb b -> okb (E key b)) by (intros b Hb; apply C_law; assumption).
   destruct (cbc_enc_length (E key) EO (zeros 16) chunk okb_zeros16 Hw M16) as [L _].
-  split; [congruence|]. apply (cbc_dec_enc_l (E key) (D key) DE EO); assumption.
+  split; [congruence|]. apply (cbc_dec_enc_l (E key) (D key) DE EO); auto using okb_zeros16.
 Qed.
 
-Lemma rom_walk_chain enc kdk rights : key_ok kdk -> rights < 4 -> forall chunks n,
+Lemma chain_plain_kdk kdk kdk' rights n chunks :
+  chain false kdk rights n chunks = chain false kdk' rights n chunks.
+Proof.
+  revert n. induction chunks as [|c t IH]; intros n; [reflexivity|]. cbn [chain]. rewrite IH. reflexivity.
+Qed.
+
+Lemma rom_walk_chain enc kdk kdk' rights :
+  (enc = true -> kdk' = kdk /\ key_ok kdk /\ rights < 4) -> forall chunks n,
   Forall chunk_ok chunks -> n + N.of_nat (length chunks) <= U32 ->
-  rom_walk Hf hl k256 D Mac enc kdk rights (length chunks) n
+  rom_walk Hf hl k256 D Mac enc kdk' rights (length chunks) n
            (fst (chain enc kdk rights n chunks)) (concat (snd (chain enc kdk rights n chunks))) = Some chunks.
 Proof.
-  intros Hk Hr. induction chunks as [|c t IH]; intros n Hc Hn.
+  intros Henc. induction chunks as [|c t IH]; intros n Hc Hn.
   - cbn [chain fst snd concat length rom_walk]. rewrite (proj2 (eqb_list_spec _ _) eq_refl). reflexivity.
   - inversion Hc as [|? ? Hc1 Hc2]; subst.
     cbn [chain fst snd concat length rom_walk].
     set (r := chain enc kdk rights (n + 1) t).
     set (key := sb_block_key k256 Mac kdk n rights).
-    assert (Kk : key_ok key) by (apply sb_derive_key_ok; assumption).
-    destruct (process_block_body enc key c Kk Hc1) as [BL BD]. cbv zeta in BL, BD.
-    unfold process_block. fold key.
-    set (body := if enc then cbc_enc (E key) (zeros 16) (sb_align 16 c) else c) in *.
+    unfold process_block. fold key. fold (blk_body enc key c).
+    set (body := blk_body enc key c) in *.
+    assert (BL : length body = 256%nat /\
+                 (if enc then cbc_dec (D (kdf_counter_mode Mac kdk' (le_enc 12 n) (kdf_context k256 rights false) (key_bits k256)))
+                                      (zeros 16) body else body) = c).
+    { destruct enc.
+      - destruct (Henc eq_refl) as (-> & Hk & Hr).
+        assert (Kk : key_ok key) by (apply sb_derive_key_ok; assumption).
+        destruct (process_block_body true key c Kk Hc1) as [BL BD]. split; [exact BL|].
+        rewrite <- kdf_spec_lemma by assumption. exact BD.
+      - split; [apply Hc1 | reflexivity]. }
+    destruct BL as [BL BD].
     assert (LB : length (le_enc 4 n ++ fst r ++ body) = N.to_nat (block_size hl)).
     { rewrite !app_length, le_enc_length, BL. unfold r. rewrite chain_fst_length. unfold block_size. lia. }
     rewrite (rd_app _ _ _ LB). cbn [obind].
@@ -522,7 +547,620 @@ Proof.
     rewrite N.eqb_refl. cbn [guard obind].
     rewrite rd_app by (unfold r; apply chain_fst_length). cbn [obind].
     unfold r. rewrite IH by (auto; cbn [length] in Hn; lia). cbn [obind].
-    fold r. rewrite <- kdf_spec_lemma by assumption. fold (sb_block_key k256 Mac kdk n rights). fold key.
-    rewrite BD. reflexivity.
+    fold r. rewrite BD. reflexivity.
 Qed.
+
+(* ------------------------------------------------------------------ F. build, then load *)
+Lemma wf_hdr4 a b c d : wf_bytes (hdr4 a b c d).
+Proof. unfold hdr4, w32. repeat apply wf_bytes_app; apply wf_le_enc. Qed.
+Lemma wf_sb_align k l : wf_bytes l -> wf_bytes (sb_align k l).
+Proof. intros. unfold sb_align. apply wf_bytes_app; [assumption | apply wf_zeros]. Qed.
+
+Lemma wf_export_cmd c : wf_cmd c -> wf_bytes (export_cmd c).
+Proof.
+  intros W. destruct (wf_cmd_inv c W) as (_ & WB & _).
+  destruct c; cbn [cmd_data] in WB; unfold export_cmd;
+    repeat first [apply wf_sb_align | apply wf_bytes_app | apply wf_hdr4 | apply wf_zeros | apply wf_le_enc | assumption].
+Qed.
+
+Lemma wf_cmds_bytes cs : Forall wf_cmd cs -> wf_bytes (cmds_bytes cs).
+Proof.
+  intros H. unfold cmds_bytes. apply wf_bytes_concat. induction H; simpl; constructor; auto using wf_export_cmd.
+Qed.
+
+Lemma wf_sb_stream cs : Forall wf_cmd cs -> wf_bytes (sb_stream cs).
+Proof. intros. unfold sb_stream, section_header. apply wf_bytes_app; [apply wf_hdr4 | now apply wf_cmds_bytes]. Qed.
+
+Lemma sb_stream_length cs : length (sb_stream cs) = (16 + length (cmds_bytes cs))%nat.
+Proof. unfold sb_stream, section_header. now rewrite app_length, hdr4_length. Qed.
+
+Lemma wf_chunk_pad fuel : forall l, wf_bytes l -> Forall wf_bytes (chunk_pad fuel l).
+Proof.
+  induction fuel as [|fuel IH]; intros l W; cbn [chunk_pad]; [constructor|].
+  destruct (Nat.leb (length l) 256).
+  - constructor; [now apply wf_sb_align | constructor].
+  - constructor; [now apply wf_bytes_firstn | apply IH; now apply wf_bytes_skipn].
+Qed.
+
+Lemma data_chunks_ok cs : Forall wf_cmd cs -> Forall chunk_ok (data_chunks (sb_stream cs)).
+Proof.
+  intros W. destruct (data_chunks_spec (sb_stream cs)) as [_ L]; [rewrite sb_stream_length; lia|].
+  pose proof (wf_chunk_pad (S (Nat.div (length (sb_stream cs)) 256)) _ (wf_sb_stream cs W)) as Wc.
+  fold (data_chunks (sb_stream cs)) in Wc.
+  rewrite Forall_forall in *. intros c Hc. split; auto.
+Qed.
+
+Lemma data_chunks_nonempty l : (1 <= length (data_chunks l))%nat.
+Proof. unfold data_chunks. cbn [chunk_pad]. destruct (Nat.leb (length l) 256); simpl; lia. Qed.
+
+Lemma blk_body_length enc key c : (enc = true -> key_ok key) -> chunk_ok c -> length (blk_body enc key c) = 256%nat.
+Proof.
+  intros Hk Hc. destruct enc.
+  - now destruct (process_block_body true key c (Hk eq_refl) Hc).
+  - apply Hc.
+Qed.
+
+Lemma chain_blocks enc kdk rights : (enc = true -> key_ok kdk /\ rights < 4) -> forall chunks n,
+  Forall chunk_ok chunks ->
+  length (snd (chain enc kdk rights n chunks)) = length chunks /\
+  Forall (fun b => length b = (260 + hl)%nat) (snd (chain enc kdk rights n chunks)).
+Proof.
+  intros Henc. induction chunks as [|c t IH]; intros n Hc; cbn [chain snd length]; [split; [reflexivity | constructor]|].
+  inversion Hc as [|? ? Hc1 Hc2]; subst. destruct (IH (n + 1) Hc2) as [IL IFA]. split; [now rewrite IL|].
+  constructor; [|exact IFA].
+  unfold process_block. fold (blk_body enc (sb_block_key k256 Mac kdk n rights) c).
+  rewrite !app_length, le_enc_length, chain_fst_length, blk_body_length; [lia | | assumption].
+  intros He. destruct (Henc He). now apply sb_derive_key_ok.
+Qed.
+
+Lemma concat_length_uniform (bs : list (list N)) k : Forall (fun b => length b = k) bs -> length (concat bs) = (length bs * k)%nat.
+Proof. induction 1 as [|b bs Hb _ IH]; [reflexivity|]. cbn [concat length]. rewrite app_length, IH, Hb. lia. Qed.
+
+Definition image_type (x : sb_input) : N := if i_nxp x then 7 else 6.
+
+Lemma rom_header_built x bc tl fh : length fh = hl ->
+  i_flags x < U32 -> bc < U32 -> 1 <= bc -> i_timestamp x < U64 -> i_fwver x < U32 -> tl < U32 -> block_size hl < U32 ->
+  rom_header hl (sb_header hl x bc tl ++ fh) =
+  Some (mk_hdr (i_flags x) bc (i_timestamp x) (i_fwver x) tl (image_type x) (descr16 (i_descr x)) fh).
+Proof.
+  intros Hfh Hfl Hbc Hbc1 Hts Hfw Htl Hbs. unfold rom_header, sb_header. rewrite <- !app_assoc.
+  rewrite (rd_app SB_MAGIC) by reflexivity. cbn [obind].
+  rewrite (proj2 (eqb_list_spec _ _) eq_refl). cbn [guard obind].
+  rewrite rd_app by apply le_enc_length. cbn [obind]. rewrite rd_app by apply le_enc_length. cbn [obind].
+  rewrite !le_dec_enc_small by reflexivity. cbn [N.eqb Pos.eqb andb guard obind].
+  change (le_enc 4) with w32.
+  rewrite rdw_app by assumption. cbn [obind]. rewrite rdw_app by assumption. cbn [obind].
+  rewrite rdw_app by assumption. cbn [obind].
+  rewrite rd_app by apply le_enc_length. cbn [obind].
+  rewrite rdw_app by assumption. cbn [obind]. rewrite rdw_app by assumption. cbn [obind].
+  rewrite rdw_app by (destruct (i_nxp x); reflexivity). cbn [obind].
+  rewrite rdw_app by (unfold cert_offset, block_size, U32 in *; lia). cbn [obind].
+  rewrite rd_app by apply descr16_length. cbn [obind].
+  rewrite !N.eqb_refl. cbn [andb].
+  replace (((if i_nxp x then 7 else 6) =? 6) || ((if i_nxp x then 7 else 6) =? 7)) with true by (destruct (i_nxp x); reflexivity).
+  cbn [andb]. rewrite (proj2 (N.leb_le 1 bc) Hbc1). cbn [guard obind].
+  rewrite rd_exact by assumption. cbn [obind length Nat.eqb guard].
+  rewrite le_dec_enc_small by exact Hts. reflexivity.
+Qed.
+
+Definition wf_input (x : sb_input) : Prop :=
+  Forall wf_cmd (i_cmds x) /\ i_flags x < U32 /\ i_fwver x < U32 /\ i_timestamp x < U64 /\
+  i_cert_expected x = nlen (i_cert x) /\
+  60 + N.of_nat hl + nlen (i_cert x) + 2 * N.of_nat hl < U32 /\
+  nlen (data_chunks (sb_stream (i_cmds x))) < U32 /\
+  nlen (cmds_bytes (i_cmds x)) < U32 /\
+  (i_encrypted x = true -> key_ok (i_pck x) /\ i_rights x < 4).
+
+Definition total_len (x : sb_input) : N := 60 + N.of_nat hl + nlen (i_cert x) + 2 * N.of_nat hl.
+Definition the_chunks (x : sb_input) : list (list N) := data_chunks (sb_stream (i_cmds x)).
+Definition the_kdk (x : sb_input) : list N := sb_kdk k256 Mac (i_pck x) (i_timestamp x) (i_rights x).
+Definition the_chain (x : sb_input) : list N * list (list N) :=
+  chain (i_encrypted x) (the_kdk x) (i_rights x) 1 (the_chunks x).
+(* header || H(block 1) || certificate block: what the signature covers *)
+Definition signed_part (x : sb_input) : list N :=
+  sb_header hl x (nlen (the_chunks x)) (total_len x) ++ fst (the_chain x) ++ i_cert x.
+Definition file_of (x : sb_input) (sig : list N) : list N := signed_part x ++ sig ++ concat (snd (the_chain x)).
+Definition state_of (x : sb_input) : sb_state := mk_state (fst (the_chain x)) (nlen (the_chunks x)) (total_len x).
+Definition decoded (x : sb_input) (sig : list N) : rom_out :=
+  mk_out (i_fwver x) (i_timestamp x) (i_flags x) (image_type x) (descr16 (i_descr x)) (nlen (the_chunks x)) (total_len x)
+         (i_cmds x) (signed_part x) (i_cert x) sig.
+
+Lemma wf_cmd_in_range cs : Forall wf_cmd cs -> forallb cmd_in_range cs = true.
+Proof.
+  induction 1 as [|c cs Hc _ IH]; [reflexivity|]. cbn [forallb]. rewrite IH.
+  destruct (wf_cmd_inv c Hc) as (R & _). now rewrite R.
+Qed.
+
+Lemma build31_eq x sig s : wf_input x -> 60 <= s_total_len s ->
+  build31 Hf hl k256 E Mac s x sig = Ok (state_of x, file_of x sig).
+Proof.
+  intros (Wc & Wfl & Wfw & Wts & Wce & Wtl & Wbc & Wsl & Wk) Hs. unfold build31.
+  destruct (N.ltb_spec (s_total_len s) 60); [lia|].
+  rewrite (wf_cmd_in_range _ Wc). cbn [negb].
+  rewrite process_blocks_chain. fold (the_chunks x). fold (the_kdk x). fold (the_chain x).
+  destruct (the_chain x) as [fh blocks] eqn:EC.
+  rewrite Wce. fold (total_len x). fold (total_len x) in Wtl. fold (the_chunks x) in Wbc.
+  unfold u32b. rewrite (proj2 (N.ltb_lt _ _) Wfl), (proj2 (N.ltb_lt _ _) Wbc), (proj2 (N.ltb_lt _ _) Wts),
+    (proj2 (N.ltb_lt _ _) Wfw), (proj2 (N.ltb_lt _ _) Wtl). cbn [andb negb].
+  unfold state_of, file_of, signed_part. rewrite EC. cbn [fst snd]. rewrite <- !app_assoc. reflexivity.
+Qed.
+
+Lemma rom31_file x sig : wf_input x -> length sig = (2 * hl)%nat ->
+  rom31_g Hf hl k256 D Mac (i_encrypted x) (i_pck x) (i_rights x) (file_of x sig) = Some (decoded x sig).
+Proof.
+  intros (Wc & Wfl & Wfw & Wts & Wce & Wtl & Wbc & Wsl & Wk) Hsig.
+  pose proof (data_chunks_ok _ Wc) as Cok. fold (the_chunks x) in Cok, Wbc.
+  pose proof (data_chunks_nonempty (sb_stream (i_cmds x))) as Cne. fold (the_chunks x) in Cne.
+  assert (Henc : i_encrypted x = true -> key_ok (the_kdk x) /\ i_rights x < 4).
+  { intros He. destruct (Wk He). split; [apply sb_derive_key_ok|]; assumption. }
+  destruct (chain_blocks (i_encrypted x) (the_kdk x) (i_rights x) Henc (the_chunks x) 1 Cok) as [CL CF].
+  fold (the_chain x) in CL, CF.
+  assert (Lfh : length (fst (the_chain x)) = hl) by apply chain_fst_length.
+  unfold rom31_g, file_of, signed_part. fold (total_len x) in Wtl.
+  (* front: header and H(block 1) *)
+  rewrite <- !app_assoc.
+  rewrite (app_assoc (sb_header _ _ _ _)).
+  rewrite rd_app by (rewrite app_length, sb_header_length, Lfh; reflexivity). cbn [obind].
+  rewrite rom_header_built; [ | assumption | assumption | assumption | unfold nlen; lia | assumption | assumption | assumption
+                            | unfold block_size, total_len, U32 in *; lia ].
+  cbn [obind h_tl h_bcount h_ts h_hash1 h_fw h_flags h_itype h_descr].
+  (* lengths *)
+  assert (G1 : (N.of_nat (60 + hl + 2 * hl) <=? total_len x) = true) by (apply N.leb_le; unfold total_len; lia).
+  assert (G2 : (nlen ((sb_header hl x (nlen (the_chunks x)) (total_len x) ++ fst (the_chain x)) ++
+                      i_cert x ++ sig ++ concat (snd (the_chain x))) =?
+                total_len x + nlen (the_chunks x) * block_size hl) = true).
+  { apply N.eqb_eq. unfold nlen. rewrite !app_length, sb_header_length, Lfh, Hsig.
+    rewrite (concat_length_uniform _ _ CF), CL. unfold total_len, block_size, nlen. lia. }
+  rewrite G1, G2. cbn [andb guard obind].
+  rewrite rd_app by (unfold total_len, nlen; lia). cbn [obind].
+  rewrite rd_app by assumption. cbn [obind].
+  (* walk *)
+  replace (N.to_nat (nlen (the_chunks x))) with (length (the_chunks x)) by (unfold nlen; lia).
+  unfold the_chain.
+  rewrite (rom_walk_chain (i_encrypted x) (the_kdk x)); [| |assumption|unfold nlen, U32 in *; lia].
+  2:{ intros He. destruct (Wk He) as [Kp Hr]. destruct (Henc He) as [Kk _]. split; [|split; assumption].
+      unfold the_kdk, sb_kdk. symmetry. now apply kdf_spec_lemma. }
+  cbn [obind].
+  (* section *)
+  unfold the_chunks. destruct (data_chunks_spec (sb_stream (i_cmds x))) as [CC _]; [rewrite sb_stream_length; lia|].
+  rewrite CC. unfold sb_stream at 1, section_header, hdr4. rewrite <- !app_assoc.
+  rewrite rdw_app by reflexivity. cbn [obind]. rewrite rdw_app by reflexivity. cbn [obind].
+  rewrite rdw_app by assumption. cbn [obind]. rewrite rdw_app by reflexivity. cbn [obind].
+  cbn [N.eqb Pos.eqb andb guard obind].
+  rewrite rdn_app. cbn [obind]. rewrite all_zero_zeros, zeros_length.
+  destruct (Nat.ltb_spec (padlen 256 (length (sb_stream (i_cmds x)))) 256) as [_|Hp];
+    [|pose proof (padlen_lt 256 (length (sb_stream (i_cmds x)))); lia].
+  cbn [andb guard obind].
+  rewrite rom_cmds_export by (auto using cmds_bytes_length_ge). cbn [obind].
+  unfold decoded, signed_part. f_equal. f_equal.
+  replace (N.to_nat (total_len x) - 2 * hl)%nat with
+      (length ((sb_header hl x (nlen (data_chunks (sb_stream (i_cmds x)))) (total_len x) ++
+                fst (chain (i_encrypted x) (the_kdk x) (i_rights x) 1 (data_chunks (sb_stream (i_cmds x))))) ++ i_cert x)).
+  - rewrite (app_assoc (sb_header _ _ _ _)), (app_assoc (_ ++ _) (i_cert x)), firstn_app_exact by reflexivity.
+    now rewrite <- app_assoc.
+  - rewrite !app_length, sb_header_length. fold (the_chunks x). fold (the_chain x). rewrite Lfh.
+    unfold total_len, nlen. lia.
+Qed.
+
+(* ------------------------------------------------------------------ G. export histories *)
+Lemma total_len_ge x : 60 <= total_len x.
+Proof. unfold total_len. lia. Qed.
+
+Lemma exports_eq x : wf_input x -> forall sigs s, 60 <= s_total_len s ->
+  exists s', exports Hf hl k256 E Mac s x sigs = Ok (s', map (file_of x) sigs) /\ 60 <= s_total_len s'.
+Proof.
+  intros W. induction sigs as [|sg more IH]; intros s Hs; cbn [exports map].
+  - exists s. split; [reflexivity | assumption].
+  - rewrite (build31_eq x sg s W Hs).
+    destruct (IH (state_of x)) as (s' & Es & Hs'); [apply total_len_ge|].
+    rewrite Es. exists s'. split; [reflexivity | assumption].
+Qed.
+
+(* ------------------------------------------------------------------ H. what the chain authenticates *)
+(* h is the hash of the first block; every block embeds (bytes 4 .. 4+hl) the hash of its successor; the last one zeros *)
+Fixpoint chained (h : list N) (bs : list (list N)) : Prop :=
+  match bs with
+  | [] => h = zeros hl
+  | b :: t => h = Hf b /\ chained (firstn hl (skipn 4 b)) t
+  end.
+
+Lemma chain_chained enc kdk rights : forall chunks n,
+  chained (fst (chain enc kdk rights n chunks)) (snd (chain enc kdk rights n chunks)).
+Proof.
+  induction chunks as [|c t IH]; intros n; cbn [chain fst snd chained]; [reflexivity|].
+  split; [reflexivity|]. unfold process_block.
+  rewrite skipn_app_exact by apply le_enc_length.
+  rewrite firstn_app_exact by apply chain_fst_length. apply IH.
+Qed.
+
+Lemma obind_some {A B} (o : option A) (f : A -> option B) v : obind o f = Some v -> exists a, o = Some a /\ f a = Some v.
+Proof. destruct o; [eauto | discriminate]. Qed.
+Lemma guard_some b u : guard b = Some u -> b = true.
+Proof. destruct b; [reflexivity | discriminate]. Qed.
+
+Ltac inv_do H :=
+  match type of H with
+  | obind (guard ?b) _ = Some _ =>
+      let G := fresh "G" in destruct b eqn:G; cbn [guard obind] in H; [|discriminate H]
+  | obind ?o _ = Some _ =>
+      let a := fresh "a" in let Ea := fresh "Ea" in
+      destruct o as [a|] eqn:Ea; cbn [obind] in H; [|discriminate H]
+  end.
+
+Definition collision : Prop := exists a b : list N, a <> b /\ Hf a = Hf b.
+
+Lemma rom_walk_binds enc kdk rights : forall count n e r1 r2 p1 p2,
+  rom_walk Hf hl k256 D Mac enc kdk rights count n e r1 = Some p1 ->
+  rom_walk Hf hl k256 D Mac enc kdk rights count n e r2 = Some p2 ->
+  r1 = r2 \/ collision.
+Proof.
+  induction count as [|count IH]; intros n e r1 r2 p1 p2 W1 W2; cbn [rom_walk] in W1, W2.
+  - inv_do W1. inv_do W1. inv_do W2. inv_do W2. left.
+    apply Nat.eqb_eq in G0, G2. destruct r1, r2; simpl in *; try lia. reflexivity.
+  - inv_do W1. destruct a as [b1 r1']. inv_do W1. inv_do W1. destruct a as [n1 q1]. inv_do W1. inv_do W1.
+    destruct a as [nx1 pl1]. inv_do W1.
+    inv_do W2. destruct a0 as [b2 r2']. inv_do W2. inv_do W2. destruct a0 as [n2 q2]. inv_do W2. inv_do W2.
+    destruct a0 as [nx2 pl2]. inv_do W2.
+    apply eqb_list_spec in G, G1.
+    destruct (rd_some _ _ _ _ Ea) as [-> Lb1]. destruct (rd_some _ _ _ _ Ea3) as [-> Lb2].
+    destruct (list_eq_dec N.eq_dec b1 b2) as [Eb|Nb].
+    + subst b2. rewrite Ea0 in Ea4. inversion Ea4; subst. rewrite Ea1 in Ea5. inversion Ea5; subst.
+      destruct (IH _ _ _ _ _ _ Ea2 Ea6) as [->|C]; [left; reflexivity | right; exact C].
+    + right. exists b1, b2. split; [exact Nb | congruence].
+Qed.
+
+Lemma app_inj_length {A} (a b c d : list A) : length a = length c -> a ++ b = c ++ d -> a = c /\ b = d.
+Proof.
+  intros L Eq. split.
+  - apply (f_equal (firstn (length a))) in Eq. rewrite firstn_app_exact in Eq by reflexivity.
+    rewrite L, firstn_app_exact in Eq by reflexivity. exact Eq.
+  - apply (f_equal (skipn (length a))) in Eq. rewrite skipn_app_exact in Eq by reflexivity.
+    rewrite L, skipn_app_exact in Eq by reflexivity. exact Eq.
+Qed.
+
+(* what acceptance by the loader means for the layout of the file *)
+Lemma rom31_inv enc pck rights f o : rom31_g Hf hl k256 D Mac enc pck rights f = Some o ->
+  exists pre h cert blocks plains,
+    rom_header hl pre = Some h /\ length pre = (60 + hl)%nat /\
+    f = pre ++ cert ++ o_sig o ++ blocks /\ o_signed o = pre ++ cert /\ o_cert o = cert /\
+    length (o_sig o) = (2 * hl)%nat /\
+    N.of_nat (length (pre ++ cert ++ o_sig o)) = o_total_len o /\
+    nlen blocks = o_block_count o * block_size hl /\
+    o_total_len o = h_tl h /\ o_block_count o = h_bcount h /\
+    rom_walk Hf hl k256 D Mac enc (kdf_counter_mode Mac pck (le_enc 12 (h_ts h)) (kdf_context k256 rights true) (key_bits k256))
+             rights (N.to_nat (h_bcount h)) 1 (h_hash1 h) blocks = Some plains.
+Proof.
+  unfold rom31_g. intros H.
+  inv_do H. destruct a as [pre r]. inv_do H. rename a into h. inv_do H.
+  inv_do H. destruct a as [cert r1]. inv_do H. destruct a as [sig blocks]. inv_do H. rename a into plains.
+  inv_do H. destruct a as [uid s1]. inv_do H. destruct a as [stype s2]. inv_do H. destruct a as [slen s3].
+  inv_do H. destruct a as [spad s4]. inv_do H. inv_do H. destruct a as [body padding]. inv_do H. inv_do H.
+  inversion H; subst o; clear H. cbn [o_sig o_signed o_cert o_total_len o_block_count].
+  apply andb_true_iff in G. destruct G as [GA GB]. apply N.leb_le in GA. apply N.eqb_eq in GB.
+  destruct (rd_some _ _ _ _ Ea) as [-> Lpre]. destruct (rd_some _ _ _ _ Ea1) as [-> Lcert].
+  destruct (rd_some _ _ _ _ Ea2) as [-> Lsig].
+  exists pre, h, cert, blocks, plains.
+  assert (Lc : (N.to_nat (h_tl h) - 2 * hl)%nat = length (pre ++ cert)) by (rewrite app_length; lia).
+  repeat split; try assumption; try reflexivity.
+  - replace (N.to_nat (h_tl h) - (hl + (hl + 0)))%nat with (length (pre ++ cert)) by (rewrite app_length; lia).
+    rewrite app_assoc. apply firstn_app_exact. reflexivity.
+  - rewrite !app_length. lia.
+  - unfold nlen in *. rewrite !app_length in GB. lia.
+Qed.
+
+Lemma rom_header_hash1_length pre h : rom_header hl pre = Some h -> length (h_hash1 h) = hl.
+Proof.
+  unfold rom_header. intros H.
+  inv_do H. destruct a as [m r]. inv_do H. inv_do H. destruct a as [mi r1]. inv_do H. destruct a as [ma r2].
+  inv_do H. inv_do H. destruct a as [fl r3]. inv_do H. destruct a as [bc r4]. inv_do H. destruct a as [bs r5].
+  inv_do H. destruct a as [ts r6]. inv_do H. destruct a as [fw r7]. inv_do H. destruct a as [tl r8].
+  inv_do H. destruct a as [it r9]. inv_do H. destruct a as [co r10]. inv_do H. destruct a as [de r11].
+  inv_do H. inv_do H. destruct a as [h1 r12]. inv_do H. inversion H; subst h. cbn [h_hash1].
+  match goal with HH : rd hl _ = Some (h1, _) |- _ => now destruct (rd_some _ _ _ _ HH) end.
+Qed.
+
+(* two accepted files with the same signed part agree everywhere except (possibly) in the signature field,
+   unless two different blocks with the same hash are exhibited *)
+Lemma signature_binds_lemma enc pck rights f1 f2 o1 o2 :
+  rom31_g Hf hl k256 D Mac enc pck rights f1 = Some o1 ->
+  rom31_g Hf hl k256 D Mac enc pck rights f2 = Some o2 ->
+  o_signed o1 = o_signed o2 ->
+  f2 = o_signed o1 ++ o_sig o2 ++ skipn (N.to_nat (o_total_len o1)) f1 \/ collision.
+Proof.
+  intros R1 R2 S.
+  destruct (rom31_inv _ _ _ _ _ R1) as (pre1 & h1 & cert1 & bl1 & pl1 & Hh1 & Lp1 & F1 & S1 & _ & Ls1 & T1 & _ & Tl1 & Bc1 & W1).
+  destruct (rom31_inv _ _ _ _ _ R2) as (pre2 & h2 & cert2 & bl2 & pl2 & Hh2 & Lp2 & F2 & S2 & _ & Ls2 & T2 & _ & Tl2 & Bc2 & W2).
+  rewrite S1, S2 in S. destruct (app_inj_length pre1 cert1 pre2 cert2 ltac:(congruence) S) as [-> ->].
+  rewrite Hh1 in Hh2. inversion Hh2; subst h2.
+  destruct (rom_walk_binds _ _ _ _ _ _ _ _ _ _ W1 W2) as [->|C]; [left | right; exact C].
+  rewrite F2, S1, <- app_assoc. f_equal. f_equal. f_equal.
+  rewrite F1, <- T1, Nat2N.id. rewrite !app_assoc. rewrite skipn_app_exact; [reflexivity|].
+  now rewrite <- !app_assoc.
+Qed.
+
+(* ------------------------------------------------------------------ generic forms of the property theorems *)
+Theorem rom31_build_first_g x sig s : wf_input x -> 60 <= s_total_len s -> length sig = (2 * hl)%nat ->
+  build31 Hf hl k256 E Mac s x sig = Ok (state_of x, file_of x sig) /\
+  rom31_g Hf hl k256 D Mac (i_encrypted x) (i_pck x) (i_rights x) (file_of x sig) = Some (decoded x sig).
+Proof. intros W Hs Hl. split; [now apply build31_eq | now apply rom31_file]. Qed.
+
+Theorem rom31_build_history_g x sigs s : wf_input x -> 60 <= s_total_len s ->
+  Forall (fun sg => length sg = (2 * hl)%nat) sigs ->
+  exists s', exports Hf hl k256 E Mac s x sigs = Ok (s', map (file_of x) sigs) /\
+             Forall (fun sg => rom31_g Hf hl k256 D Mac (i_encrypted x) (i_pck x) (i_rights x) (file_of x sg)
+                               = Some (decoded x sg)) sigs.
+Proof.
+  intros W Hs Hl. destruct (exports_eq x W sigs s Hs) as (s' & Es & _). exists s'. split; [exact Es|].
+  eapply Forall_impl; [|exact Hl]. intros sg Hsg. now apply rom31_file.
+Qed.
+
+Theorem chain_authenticates_g x sig : wf_input x ->
+  file_of x sig = sb_header hl x (nlen (the_chunks x)) (total_len x) ++ fst (the_chain x) ++ i_cert x ++ sig
+                  ++ concat (snd (the_chain x)) /\
+  chained (fst (the_chain x)) (snd (the_chain x)) /\
+  length (snd (the_chain x)) = length (the_chunks x) /\
+  Forall (fun b => length b = (260 + hl)%nat) (snd (the_chain x)).
+Proof.
+  intros (Wc & Wfl & Wfw & Wts & Wce & Wtl & Wbc & Wsl & Wk).
+  split; [unfold file_of, signed_part; now rewrite <- !app_assoc|].
+  split; [apply chain_chained|].
+  apply chain_blocks; [|now apply data_chunks_ok].
+  intros He. destruct (Wk He). split; [apply sb_derive_key_ok|]; assumption.
+Qed.
+
+Theorem coverage31_g enc pck rights f o : rom31_g Hf hl k256 D Mac enc pck rights f = Some o ->
+  exists blocks, f = o_signed o ++ o_sig o ++ blocks /\
+                 length (o_sig o) = (2 * hl)%nat /\
+                 N.of_nat (length (o_signed o ++ o_sig o)) = o_total_len o /\
+                 nlen blocks = o_block_count o * block_size hl.
+Proof.
+  intros R. destruct (rom31_inv _ _ _ _ _ R) as (pre & h & cert & bl & pl & Hh & Lp & F & S & _ & Ls & T & B & _).
+  exists bl. rewrite S. repeat split; try assumption.
+  - now rewrite <- app_assoc.
+  - now rewrite <- app_assoc.
+Qed.
+
 End Generic.
+
+Lemma export_cmd_aligned c : Nat.modulo (length (export_cmd c)) 16 = 0%nat.
+Proof.
+  destruct c; unfold export_cmd; rewrite ?app_length, ?hdr4_length, ?zeros_length;
+    try reflexivity; try (apply sb_align_length; lia).
+  pose proof (sb_align_length 16 (hdr4 SB_TAG addr (nlen data) 9 ++ hdr4 mem 0 0 0 ++ data) ltac:(lia)) as M.
+  rewrite Nat.add_mod, M by lia. reflexivity.
+Qed.
+
+Lemma cmds_bytes_aligned cs : Nat.modulo (length (cmds_bytes cs)) 16 = 0%nat.
+Proof.
+  induction cs as [|c cs IH]; [reflexivity|].
+  rewrite cmds_bytes_cons, app_length, Nat.add_mod, export_cmd_aligned, IH by lia. reflexivity.
+Qed.
+
+Theorem stream_ends_everywhere_lemma :
+  (forall cs, let s := sb_stream cs in
+     concat (data_chunks s) = s ++ zeros (padlen 256 (length s)) /\ (padlen 256 (length s) < 256)%nat /\
+     Forall (fun c => length c = 256%nat) (data_chunks s) /\ Nat.modulo (length s) 16 = 0%nat) /\
+  (forall m : nat, exists cs, Forall wf_cmd cs /\ length (sb_stream cs) = (16 * (m + 1))%nat).
+Proof.
+  split.
+  - intros cs s. destruct (data_chunks_spec s) as [A B]; [unfold s; rewrite sb_stream_length; lia|].
+    split; [exact A|]. split; [apply padlen_lt; lia|]. split; [exact B|].
+    unfold s. rewrite sb_stream_length, Nat.add_mod, cmds_bytes_aligned by lia. reflexivity.
+  - intros m. exists (repeat CReset m). split.
+    + induction m; simpl; constructor; auto. reflexivity.
+    + rewrite sb_stream_length. induction m as [|m IH]; [reflexivity|].
+      cbn [repeat]. rewrite cmds_bytes_cons, app_length. unfold export_cmd at 1. rewrite hdr4_length. lia.
+Qed.
+
+(* ------------------------------------------------------------------ I. the concrete primitives satisfy the laws *)
+Lemma digest_bytes_length c s : length (digest_bytes c s) = (8 * wbytes c)%nat.
+Proof.
+  destruct s as [[[[[[[a b] cc] d] e] f] g] h]. unfold digest_bytes. cbn [map concat].
+  rewrite !app_length, !be_enc_length. simpl. lia.
+Qed.
+
+Lemma sha_len b384 m : length (sha_of b384 m) = hl_of b384.
+Proof.
+  destruct b384; unfold sha_of, hl_of, sha384, sha256, sha2; rewrite firstn_length, digest_bytes_length;
+    reflexivity.
+Qed.
+
+Lemma aes_law k b : key_ok k -> okb b -> aes_D k (aes_E k b) = b /\ okb (aes_E k b).
+Proof. intros [K W] Hb. exact (aes_dec_enc k b K W Hb). Qed.
+
+Lemma okb_cmac_dbl b : okb (cmac_dbl b).
+Proof. unfold cmac_dbl. split; [apply be_enc_length | apply be_enc_wf]. Qed.
+
+Lemma chunked_split bs : chunked 16 bs -> Forall wf_bytes bs ->
+  Forall okb (removelast bs) /\ (length (last bs []) <= 16)%nat /\ wf_bytes (last bs []).
+Proof.
+  induction bs as [|b t IH]; intros C W.
+  - split; [constructor|]. split; [simpl; lia | constructor].
+  - inversion W as [|? ? Wb Wt]; subst. destruct t as [|b' t'].
+    + cbn [removelast last chunked] in *. split; [constructor|]. split; [lia | assumption].
+    + destruct C as [Lb C']. destruct (IH C' Wt) as (I1 & I2 & I3).
+      change (removelast (b :: b' :: t')) with (b :: removelast (b' :: t')).
+      change (last (b :: b' :: t') []) with (last (b' :: t') []).
+      split; [constructor; [split; assumption | exact I1]|]. split; assumption.
+Qed.
+
+Lemma cbc_mac_ok (F : blk -> blk) : (forall b, okb b -> okb (F b)) -> forall l acc,
+  Forall okb l -> okb acc -> okb (fold_left (fun a b => F (xor_bytes b a)) l acc).
+Proof.
+  intros HF. induction l as [|b l IH]; intros acc Hl Ha; [exact Ha|].
+  inversion Hl; subst. cbn [fold_left]. apply IH; [assumption|]. apply HF, okb_xor; assumption.
+Qed.
+
+Lemma cmac_law k m : key_ok k -> wf_bytes m -> okb (aes_cmac k m).
+Proof.
+  intros [K W] Wm. unfold aes_cmac. cbv zeta.
+  assert (HF : forall b, okb b -> okb (cipher_rks (key_expansion k) b)).
+  { intros b Hb. exact (proj2 (aes_dec_enc k b K W Hb)). }
+  unfold cmac_gen. cbv zeta.
+  destruct (chunked_split (chunks BS m) (chunked_chunks 16 m ltac:(lia)) (wf_chunks 16 m Wm)) as (B1 & B2 & B3).
+  unfold cbc_mac. apply cbc_mac_ok; [exact HF | | split; [reflexivity | apply wf_zeros]].
+  apply Forall_app. split; [exact B1|]. constructor; [|constructor].
+  set (lastb := last (chunks BS m) []) in *.
+  destruct (Nat.eqb_spec (length lastb) BS) as [E16|N16].
+  - apply okb_xor; [split; assumption | apply okb_cmac_dbl].
+  - apply okb_xor; [|apply okb_cmac_dbl]. unfold BS in *. split.
+    + rewrite !app_length, zeros_length. cbn [length]. lia.
+    + repeat apply wf_bytes_app; [assumption | repeat constructor | apply wf_zeros].
+Qed.
+
+(* ------------------------------------------------------------------ J. the model that is executed against SPSDK *)
+Definition wf_input_c (b384 : bool) : sb_input -> Prop := wf_input (hl_of b384).
+Definition the_chain_c (b384 : bool) := the_chain (sha_of b384) (hl_of b384) b384 aes_E aes_cmac.
+Definition signed_part_c (b384 : bool) := signed_part (sha_of b384) (hl_of b384) b384 aes_E aes_cmac.
+Definition file_of_c (b384 : bool) := file_of (sha_of b384) (hl_of b384) b384 aes_E aes_cmac.
+Definition state_of_c (b384 : bool) := state_of (sha_of b384) (hl_of b384) b384 aes_E aes_cmac.
+Definition decoded_c (b384 : bool) := decoded (sha_of b384) (hl_of b384) b384 aes_E aes_cmac.
+Definition rom31_c (b384 : bool) := rom31_g (sha_of b384) (hl_of b384) b384 aes_D aes_cmac.
+Definition chained_c (b384 : bool) := chained (sha_of b384) (hl_of b384).
+Definition collision_c (b384 : bool) := collision (sha_of b384).
+
+Lemma slice_16_20 (a b c d e : list N) v r :
+  length a = 4%nat -> length b = 2%nat -> length c = 2%nat -> length d = 4%nat -> length e = 4%nat ->
+  slice (a ++ b ++ c ++ d ++ e ++ w32 v ++ r) 16 20 = w32 v.
+Proof.
+  intros. unfold slice. change (20 - 16)%nat with 4%nat.
+  rewrite (app_assoc a), (app_assoc (a ++ b)), (app_assoc ((a ++ b) ++ c)), (app_assoc (((a ++ b) ++ c) ++ d)).
+  rewrite skipn_app_exact by (rewrite !app_length; lia). apply firstn4_w32.
+Qed.
+
+(* the loader's choice of hash from the block size field agrees with the container's hash type *)
+Lemma file_bsize b384 x sig : le_dec (slice (file_of_c b384 x sig) 16 20) = block_size (hl_of b384).
+Proof.
+  unfold file_of_c, file_of, signed_part, sb_header. rewrite <- !app_assoc.
+  change (le_enc 4 (block_size (hl_of b384))) with (w32 (block_size (hl_of b384))).
+  rewrite slice_16_20 by (try apply le_enc_length; reflexivity).
+  apply w32_dec. destruct b384; reflexivity.
+Qed.
+
+Lemma rom31_dispatch b384 x sig enc pck rights :
+  rom31 enc pck rights (file_of_c b384 x sig) = rom31_c b384 enc pck rights (file_of_c b384 x sig).
+Proof. unfold rom31. rewrite file_bsize. destruct b384; reflexivity. Qed.
+
+Theorem rom31_build_first_lemma b384 x sig s :
+  wf_input_c b384 x -> 60 <= s_total_len s -> length sig = (2 * hl_of b384)%nat ->
+  build31_c b384 s x sig = Ok (state_of_c b384 x, file_of_c b384 x sig) /\
+  rom31 (i_encrypted x) (i_pck x) (i_rights x) (file_of_c b384 x sig) = Some (decoded_c b384 x sig).
+Proof.
+  intros W Hs Hl. rewrite rom31_dispatch.
+  exact (rom31_build_first_g (sha_of b384) (hl_of b384) b384 aes_E aes_D aes_cmac (sha_len b384) aes_law cmac_law x sig s W Hs Hl).
+Qed.
+
+Theorem rom31_build_history_lemma b384 x sigs s :
+  wf_input_c b384 x -> 60 <= s_total_len s -> Forall (fun sg => length sg = (2 * hl_of b384)%nat) sigs ->
+  exists s', exports_c b384 s x sigs = Ok (s', map (file_of_c b384 x) sigs) /\
+             Forall (fun sg => rom31 (i_encrypted x) (i_pck x) (i_rights x) (file_of_c b384 x sg)
+                               = Some (decoded_c b384 x sg)) sigs.
+Proof.
+  intros W Hs Hl.
+  destruct (rom31_build_history_g (sha_of b384) (hl_of b384) b384 aes_E aes_D aes_cmac (sha_len b384) aes_law cmac_law
+              x sigs s W Hs Hl) as (s' & Es & F).
+  exists s'. split; [exact Es|]. eapply Forall_impl; [|exact F]. intros sg H. rewrite rom31_dispatch. exact H.
+Qed.
+
+Theorem chain_authenticates_lemma b384 x sig : wf_input_c b384 x ->
+  file_of_c b384 x sig =
+    sb_header (hl_of b384) x (nlen (the_chunks x)) (total_len (hl_of b384) x) ++ fst (the_chain_c b384 x) ++ i_cert x ++ sig
+    ++ concat (snd (the_chain_c b384 x)) /\
+  chained_c b384 (fst (the_chain_c b384 x)) (snd (the_chain_c b384 x)) /\
+  length (snd (the_chain_c b384 x)) = length (the_chunks x) /\
+  Forall (fun b => length b = (260 + hl_of b384)%nat) (snd (the_chain_c b384 x)).
+Proof.
+  exact (chain_authenticates_g (sha_of b384) (hl_of b384) b384 aes_E aes_D aes_cmac (sha_len b384) aes_law cmac_law x sig).
+Qed.
+
+Theorem signature_binds_whole_file_lemma b384 enc pck rights f1 f2 o1 o2 :
+  rom31_c b384 enc pck rights f1 = Some o1 -> rom31_c b384 enc pck rights f2 = Some o2 -> o_signed o1 = o_signed o2 ->
+  f2 = o_signed o1 ++ o_sig o2 ++ skipn (N.to_nat (o_total_len o1)) f1 \/ collision_c b384.
+Proof.
+  exact (signature_binds_lemma (sha_of b384) (hl_of b384) b384 aes_E aes_D aes_cmac (sha_len b384) aes_law cmac_law
+           enc pck rights f1 f2 o1 o2).
+Qed.
+
+Theorem coverage31_lemma b384 enc pck rights f o : rom31_c b384 enc pck rights f = Some o ->
+  exists blocks, f = o_signed o ++ o_sig o ++ blocks /\
+                 length (o_sig o) = (2 * hl_of b384)%nat /\
+                 N.of_nat (length (o_signed o ++ o_sig o)) = o_total_len o /\
+                 nlen blocks = o_block_count o * block_size (hl_of b384).
+Proof.
+  exact (coverage31_g (sha_of b384) (hl_of b384) b384 aes_E aes_D aes_cmac (sha_len b384) aes_law cmac_law enc pck rights f o).
+Qed.
+
+Theorem kdf_spec_concrete b384 key const rights mode : rights < 4 ->
+  sb_derive b384 aes_cmac key const rights mode =
+    kdf_counter_mode aes_cmac key (le_enc 12 const) (kdf_context b384 rights mode) (key_bits b384) /\
+  (key_ok key -> N.of_nat (8 * length (sb_derive b384 aes_cmac key const rights mode)) = key_bits b384 /\
+                 wf_bytes (sb_derive b384 aes_cmac key const rights mode)).
+Proof.
+  intros Hr. split; [now apply kdf_spec_lemma|]. intros Hk.
+  destruct (sb_derive_key_ok b384 aes_cmac cmac_law key const rights mode Hk Hr) as [K W]. split; [|exact W].
+  unfold sb_derive in *.
+  destruct (cmac_law key (kdf_data b384 const rights mode 1) Hk (wf_kdf_data b384 _ _ _ _ Hr)) as [L1 _].
+  destruct (cmac_law key (kdf_data b384 const rights mode 2) Hk (wf_kdf_data b384 _ _ _ _ Hr)) as [L2 _].
+  destruct b384; unfold key_bits; cbn [N.eqb Pos.eqb]; rewrite ?app_length, ?L1, ?L2; reflexivity.
+Qed.
+
+(* ---- the hypotheses are satisfiable: a concrete encrypted container with two blocks ---- *)
+Definition sample_input : sb_input :=
+  mk_input true (map N.of_nat (seq 1 16)) 2 12345 7 3 false [104; 105]
+           [CErase 256 512 0; CLoad 256 1 (map N.of_nat (seq 0 230)); CProgFuses 16 [1; 2; 3; 4]; CLoadKeyBlob 4 16 [9; 9; 9];
+            CFwVersionCheck 5 2; CReset]
+           (repeat 7 200) 200.
+
+Example sample_wf : wf_input_c false sample_input.
+Proof.
+  unfold wf_input_c, wf_input, sample_input. cbn [i_cmds i_flags i_fwver i_timestamp i_cert_expected i_cert i_encrypted i_pck i_rights].
+  split; [repeat constructor|]. repeat split; try reflexivity.
+  apply wf_bytesb_spec. reflexivity.
+Qed.
+
+Example sample_accepted :
+  let f := file_of_c false sample_input (repeat 1 64) in
+  length f = (60 + 32 + 200 + 64 + 2 * 292)%nat /\
+  rom31 true (i_pck sample_input) 2 f = Some (decoded_c false sample_input (repeat 1 64)).
+Proof. vm_compute. split; reflexivity. Qed.
+
+(* ------------------------------------------------------------------ T1 ties: literal tables extracted from the source *)
+Definition all_cmd_shapes : list cmd :=
+  [CErase 0 0 0; CLoad 0 0 []; CExecute 0; CCall 0; CProgFuses 0 []; CProgIfr 0 []; CLoadCmac 0 0 []; CCopy 0 0 0 0 0;
+   CLoadHashLocking 0 0 []; CLoadKeyBlob 0 0 []; CConfigureMemory 0 0; CFillMemory 0 0 0; CFwVersionCheck 0 0; CReset].
+Definition nsum (l : list nat) : nat := fold_right Nat.add 0%nat l.
+
+Example tie_tags :
+  gen_own_tags = map cmd_tag all_cmd_shapes /\ gen_dispatch_tags = gen_own_tags /\ gen_tag_none = 0 /\ gen_tag_max = 14 /\
+  gen_cmd_magic = SB_TAG /\ gen_counter_ids = [0; 1; 2; 3; 4; 5].
+Proof. repeat split; reflexivity. Qed.
+
+(* every exported command carries the extracted magic and its extracted tag at bytes 0..4 and 12..16 *)
+Example tie_export_tags :
+  map (fun c => (le_dec (firstn 4 (export_cmd c)), le_dec (firstn 4 (skipn 12 (export_cmd c))))) all_cmd_shapes
+  = map (fun t => (gen_cmd_magic, t)) gen_own_tags.
+Proof. vm_compute. reflexivity. Qed.
+
+Example tie_formats :
+  gen_base_widths = [4; 4; 4; 4]%nat /\ gen_keyblob_widths = [4; 2; 2; 4; 4]%nat /\ gen_section_widths = [4; 4; 4; 4]%nat /\
+  gen_header_widths = [4; 2; 2; 4; 4; 4; 8; 4; 4; 4; 4; 16]%nat /\
+  length (export_cmd CReset) = nsum gen_base_widths /\ length (export_cmd (CLoadKeyBlob 0 0 [])) = nsum gen_keyblob_widths /\
+  length (section_header 0) = nsum gen_section_widths /\
+  (forall hl x bc tl, length (sb_header hl x bc tl) = nsum gen_header_widths).
+Proof. repeat split; try reflexivity. intros. apply sb_header_length. Qed.
+
+Example tie_container :
+  gen_magic = SB_MAGIC /\ gen_version = (3, 1) /\ gen_descr_len = 16%nat /\ gen_chunk_len = 256%nat /\
+  (forall hl, block_size hl = 4 + N.of_nat gen_chunk_len + N.of_nat hl) /\
+  (forall l, (0 < length l)%nat -> Forall (fun c => length c = gen_chunk_len) (data_chunks l)).
+Proof.
+  repeat split; try reflexivity.
+  intros l H. now destruct (data_chunks_spec l H).
+Qed.
+
+(* literals of _get_key_derivation_data (range checks 0..3 / 128,256; label 12 bytes; 8 zero bytes; << 6; b"\x01"; b"\x10";
+   one zero byte; 0x20 / 128 / 0x21; two 4-byte big-endian fields) and of _derive_key (iteration 1; 256 -> iteration 2) *)
+Example tie_kdf :
+  gen_kdf_data_literals = [0; 1; 2; 3; 128; 256; 12; 8; 6; 1; 1001; 1016; 1; 32; 128; 33; 1; 4; 4] /\
+  gen_derive_literals = [1; 256; 2].
+Proof. split; reflexivity. Qed.
